@@ -19,6 +19,7 @@ const ruleC12 = "model-based state machine with an id-centred mix: generated and
 func c12Profile() *sm.Profile {
 	return &sm.Profile{
 		Name:        "c12",
+		FaultRate:   12,
 		Colls:       []string{"A", "B"},
 		IndexFields: []string{"x", "_id", "u"},
 		Doc:         gen.DocCfg{Val: gen.ValCfg{MaxDepth: 0}, PAbsent: 3, Fields: []string{"x", "y", "u"}},
@@ -152,6 +153,7 @@ var c13Names = []string{"A", "B", "a", "ab", "a.b", "a:b", "c", "coll", "é", ""
 func c13Profile() *sm.Profile {
 	return &sm.Profile{
 		Name:        "c13",
+		FaultRate:   12,
 		Colls:       c13Names,
 		IndexFields: []string{"x", "xy", "y", "_id"},
 		Doc:         gen.DocCfg{Val: gen.ValCfg{MaxDepth: 1}, PAbsent: 3, Fields: []string{"x", "xy", "y", "u"}},
@@ -259,6 +261,7 @@ var c14Fields = []string{"x", "xy", "n", "n.a", "n.b", "y", "s", "_id", "p1", "p
 func c14Profile() *sm.Profile {
 	return &sm.Profile{
 		Name:        "c14",
+		FaultRate:   12,
 		Colls:       []string{"A", "AB", "zz"},
 		IndexFields: c14Fields,
 		Doc:         gen.DocCfg{Val: gen.ValCfg{MaxDepth: 1}, PAbsent: 4, Fields: []string{"x", "xy", "n", "y", "s", "u", "p1", "p%d", "q%"}},
@@ -294,7 +297,13 @@ func TestC14(t *testing.T) {
 		// the index catalog under concurrent CreateIndex / DropIndex of the same fields
 		col := collector("C14", ruleC14)
 		check(t, "C14", cases(60, 1500), 0, func(rt *rapid.T) {
-			h, verdict := concurrentCase(rt, "C14", []string{"createindex", "createindex", "createindex", "dropindex", "dropindex", "insert", "updatebyid", "deletebyid", "deletebyid", "find"})
+			var h *c07History
+			var verdict string
+			if rapid.IntRange(0, 2).Draw(rt, "index-flip") == 0 {
+				h, verdict = runConcurrent(rt, "C14", genIndexFlipProgram(rt))
+			} else {
+				h, verdict = concurrentCase(rt, "C14", []string{"createindex", "createindex", "createindex", "dropindex", "dropindex", "insert", "updatebyid", "deletebyid", "deletebyid", "find"})
+			}
 			col.Case(overlapWrite(h), hashOf(h.Setup, len(h.Ops), h.Ops[0].Op), func() interface{} {
 				return map[string]interface{}{"mode": "concurrent", "backend": h.Backend, "operations": len(h.Ops), "verdict": verdict}
 			}, "concurrent", "verdict:"+verdict)
